@@ -11,7 +11,11 @@
 (*     from   domain of the (first) author address AS SPELLED in the header *)
 (*     from2  domain of the second address (shapes with several)            *)
 (*     dkim   sequence of DKIM results [v, d]   (d as spelled in d=)        *)
-(*     spf    the SPF result [v, d, id]  (id: MAIL FROM or HELO identity)   *)
+(*     spf    the SPF result [v, mf, helo]: value, MAIL FROM domain ("" for *)
+(*            the null reverse-path) and the client-chosen HELO domain, as  *)
+(*            both appear in the SPF Authentication-Results entry.  The     *)
+(*            SPF-authenticated identity (RFC 7489 3.1.2, RFC 7208 2.4) is  *)
+(*            the MAIL FROM domain; HELO only when MAIL FROM is empty.      *)
 (*     order  order of the results in the list handed to DMARC              *)
 (*     adkim, aspf, p, sp, pct   the published record ("absent" = no tag)   *)
 (*     ldom   answer to the TXT query at _dmarc.<from>: "record" one DMARC  *)
@@ -104,7 +108,9 @@ Al(devs, mode, fs, ds) ==
 -----------------------------------------------------------------------------
 (* Authenticated identifiers of a row *)
 DkimAl(devs, i, v) == \E k \in DOMAIN i.dkim : i.dkim[k].v = v /\ Al(devs, i.adkim, i.from, i.dkim[k].d)
-SpfAl(devs, i, v)  == i.spf.v = v /\ Al(devs, i.aspf, i.from, i.spf.d)
+(* the one identity SPF authenticated: MAIL FROM, HELO only for the null sender *)
+SpfId(i) == IF i.spf.mf # "" THEN i.spf.mf ELSE i.spf.helo
+SpfAl(devs, i, v)  == i.spf.v = v /\ Al(devs, i.aspf, i.from, SpfId(i))
 
 AlignedPass(i) == DkimAl({}, i, "pass") \/ SpfAl({}, i, "pass")
 (* a temporary authentication error on an aligned identifier, and no aligned pass *)
@@ -216,15 +222,21 @@ Row(tab, shape, fs, fs2, dk, sp, order, adkim, aspf, p, spol, pct, ldom, lorg) =
    ldom |-> ldom, lorg |-> FixLorg(fs, ldom, lorg)]
 
 NoSig == <<[v |-> "none", d |-> ""]>>
+Spf(v, mf, helo) == [v |-> v, mf |-> mf, helo |-> helo]
 
 (* (a) alignment table: one passing identifier, every pair of spellings *)
 AlignFroms == {"mail.victim.co.uk", "victim.co.uk", "sub.example.com", "co.uk"}
 InAlign ==
-  \E f \in AlignFroms, cf \in BOOLEAN, ds \in Spellings, via \in {"dkim", "mailfrom", "helo"}, m \in Modes :
+  \E f \in AlignFroms, cf \in BOOLEAN, ds \in Spellings,
+     via \in {"dkim", "mailfrom", "mailfrom_helo_aligned", "helo"}, m \in Modes :
     in = Row("align", "one", Spell(f, cf), "",
              IF via = "dkim" THEN <<[v |-> "pass", d |-> ds]>> ELSE NoSig,
-             IF via = "dkim" THEN [v |-> "fail", d |-> "other.org", id |-> "mailfrom"]
-                             ELSE [v |-> "pass", d |-> ds, id |-> via],
+             CASE via = "dkim"     -> Spf("fail", "other.org", "other.org")
+               [] via = "mailfrom" -> Spf("pass", ds, "other.org")
+               (* the HELO name is chosen by the client: aligned HELO next to a *)
+               (* MAIL FROM domain that decides                                  *)
+               [] via = "mailfrom_helo_aligned" -> Spf("pass", ds, Spell(f, cf))
+               [] OTHER            -> Spf("pass", "", ds),        \* null sender: HELO is the identity
              "dkim_first", m, m, "reject", "absent", "absent", "record", "nxdomain")
 
 (* (b) verdict table: multisets of DKIM results x SPF result x modes, the   *)
@@ -247,25 +259,27 @@ InVerdict ==
         h == SumW(ms, 1) + sv + 3 * sd
     IN in = Row("verdict", "one", Spell(f, cf), "",
                 IF ms = <<>> THEN NoSig ELSE DkimOf(f, ms, ci, h),
-                [v |-> SPFVals[sv], d |-> Spell(RelDoms(f)[sd], ci),
-                 id |-> IF h % 2 = 0 THEN "mailfrom" ELSE "helo"],
+                IF h % 2 = 0
+                THEN Spf(SPFVals[sv], Spell(RelDoms(f)[sd], ci), Spell(RelDoms(f)[((h \div 4) % 4) + 1], ci))
+                ELSE Spf(SPFVals[sv], "", Spell(RelDoms(f)[sd], ci)),
                 IF (h \div 2) % 2 = 0 THEN "dkim_first" ELSE "spf_first",
                 ak, as, "reject", "absent", "absent", "record", "nxdomain")
 
-(* (c) action table: verdict class x p x sp x pct x lookup outcomes x From *)
+(* (c) action table: verdict class (7 identifier situations) x p x sp x pct x lookup outcomes x From *)
 AuthVariants(f) ==
-  << <<[v |-> "pass", d |-> f]>>,            [v |-> "fail", d |-> "other.org", id |-> "mailfrom"],
-     <<[v |-> "fail", d |-> f]>>,            [v |-> "fail", d |-> "other.org", id |-> "mailfrom"],
-     <<[v |-> "temperror", d |-> f]>>,       [v |-> "fail", d |-> "other.org", id |-> "mailfrom"],
-     NoSig,                                  [v |-> "temperror", d |-> f, id |-> "mailfrom"],
-     <<[v |-> "temperror", d |-> "other.org"]>>, [v |-> "fail", d |-> f, id |-> "mailfrom"],
-     <<[v |-> "fail", d |-> f]>>,            [v |-> "temperror", d |-> "other.org", id |-> "helo"] >>
+  << <<[v |-> "pass", d |-> f]>>,            Spf("fail", "other.org", "other.org"),
+     <<[v |-> "fail", d |-> f]>>,            Spf("fail", "other.org", "other.org"),
+     <<[v |-> "temperror", d |-> f]>>,       Spf("fail", "other.org", "other.org"),
+     NoSig,                                  Spf("temperror", f, "other.org"),
+     <<[v |-> "temperror", d |-> "other.org"]>>, Spf("fail", f, "other.org"),
+     <<[v |-> "fail", d |-> f]>>,            Spf("temperror", "", "other.org"),
+     <<[v |-> "fail", d |-> f]>>,            Spf("pass", "other.org", f) >>   \* aligned HELO, foreign MAIL FROM
 ActionFroms == {"mail.victim.co.uk", "victim.co.uk", "sub.example.com"}
 LookupPairs == {<<"record", "nxdomain">>, <<"recjunk", "record">>, <<"multiple", "record">>,
                 <<"servfail", "record">>}
                \cup ({"none", "junk", "nxdomain"} \X Answers)
 InAction ==
-  \E f \in ActionFroms, cf \in BOOLEAN, a \in 1..6, p \in Pols, spol \in Pols,
+  \E f \in ActionFroms, cf \in BOOLEAN, a \in 1..7, p \in Pols, spol \in Pols,
      pct \in {"absent", "100"}, lk \in LookupPairs :
     LET m == IF (a + (IF pct = "100" THEN 1 ELSE 0)) % 2 = 0 THEN "r" ELSE "s" IN
     in = Row("action", "one", Spell(f, cf), "", AuthVariants(f)[2 * a - 1], AuthVariants(f)[2 * a],
@@ -277,7 +291,7 @@ InShape ==
      pr \in {<<"victim.co.uk", "attacker.co.uk">>, <<"attacker.co.uk", "victim.co.uk">>},
      pol \in {"reject", "none"}, up \in BOOLEAN :
     in = Row("shape", sh, Spell(pr[1], up), IF sh \in {"one", "nofield", "emptygroup"} THEN "" ELSE Spell(pr[2], up),
-             <<[v |-> "pass", d |-> "victim.co.uk"]>>, [v |-> "pass", d |-> "victim.co.uk", id |-> "mailfrom"],
+             <<[v |-> "pass", d |-> "victim.co.uk"]>>, Spf("pass", "victim.co.uk", "other.org"),
              "dkim_first", "r", "r", pol, "absent", "absent", "record", "nxdomain")
 
 (* what the harness serves: TXT answers per name (queries are case-insensitive) *)
